@@ -546,6 +546,27 @@ def r11_in_plane_and_all_isotopes(idx, r):
                   "some natural one exists ...) are left out of getMass('U') / setMass / number-density queries")
 
 
+def r12_assembly_area_and_merge(idx, r):
+    """(a) Assembly.getArea is the symmetry-reduced area of its first block (getArea, which divides by the symmetry factor), not the full cell:
+    assembly volume = sum of block volumes.  (b) Component.mergeNuclidesInto sets, for every nuclide of either component, the SUM of the two
+    contributions: a dict update lets one side overwrite the other for shared nuclides."""
+    f = idx.method("armi.reactor.assemblies.Assembly", "getArea")
+    rets = [x for x in walk_local(f.node) if isinstance(x, ast.Return) and isinstance(x.value, ast.Call) and "self[0]" in norm(x.value)]
+    if not rets:
+        raise AnchorMissing("Assembly.getArea: return self[0].<area>()")
+    for x in rets:
+        r.require(call_attr(x.value) == "getArea", "Assembly.getArea:symmetry-reduced-block-area", f, node=x,
+                  msg=f"`{norm(x)}`: the assembly's area must be its first block's getArea() (cut by the symmetry factor); with the full cell area the volume of an assembly on a symmetry line is "
+                      "its blocks' volume times the factor, and every assembly-level mass edit is off by it")
+    g = idx.method(COMP, "mergeNuclidesInto")
+    tgt = g.params()[1]
+    upd = [c for c in iter_calls(g.node) if call_attr(c) == "update" and isinstance(c.func, ast.Attribute) and isinstance(c.func.value, ast.Name)]
+    r.require(not upd, "mergeNuclidesInto:no-overwrite", g, node=upd[0] if upd else None, msg=f"`{norm(upd[0]) if upd else ''}` overwrites one component's densities with the other's for shared nuclides")
+    sets = [c for c in iter_calls(g.node) if call_attr(c) in ("setNumberDensity",) and norm(c.func.value) == tgt]
+    oks = [c for c in sets if len(c.args) == 2 and isinstance(c.args[1], ast.BinOp) and isinstance(c.args[1].op, ast.Add)]
+    r.require(bool(oks) and len(oks) == len(sets), "mergeNuclidesInto:sum-of-both-contributions", g, msg="each nuclide of either component receives the sum of both contributions (atoms conserved for shared nuclides)")
+
+
 def run(idx, chk):
     chk.explanation = (
         "C02: 24 conversion/accounting functions are typed in the free abelian group of physical units (cm, g, mol, barn, atom) plus a role generator "
@@ -575,3 +596,5 @@ def run(idx, chk):
                  necessary="scaling by a factor scales every listed nuclide, including factor 0")
     chk.run_rule("R02.11", "Cartesian symmetry-line tests look at (i, j) only; an element specifier stands for all nuclide bases of the element", lambda r: r11_in_plane_and_all_isotopes(idx, r), floor=3,
                  necessary="volumes are divided by the symmetry factor of the IN-PLANE position; mass of an element is the sum over all its nuclides")
+    chk.run_rule("R02.12", "Assembly.getArea is the symmetry-reduced area of its first block; merged densities are sums of both contributions", lambda r: r12_assembly_area_and_merge(idx, r), floor=3,
+                 necessary="volume at assembly level = sum of block volumes; merging conserves the atoms of every nuclide")
